@@ -18,6 +18,19 @@ ASSUMPTIONS = [
 ]
 
 
+def check_value(reply, want):
+    if want is None:
+        if pipeline.is_error(reply):
+            return None
+        return {"why": "arithmetic is undefined (division by zero) but the tool returned %s" % reply.get("results"), "expected": "error"}
+    v = pipeline.single_value(reply)
+    if v is None:
+        return {"why": "expected the single value %s" % want, "expected": str(want)}
+    if Fraction(v[0], v[1]) != want or v[2] != []:
+        return {"why": "value %d/%d differs from the exact value %s" % (v[0], v[1], want), "expected": str(want)}
+    return None
+
+
 def run(rng, tier, model_ok):
     n = 900 if tier == "quick" else 12000
     items = []
@@ -70,11 +83,37 @@ def run(rng, tier, model_ok):
                 return {"why": "value %d/%d differs from the exact value %s" % (v[0], v[1], want), "expected": str(want)}
             return None
         items.append((q, oracle))
+    # boundary operands in every position of every operator: zero in several spellings and as a computed value, one, minus one,
+    # fractions, percentages, exponent notation; every integer exponent -4..4 (also computed); and the same one level down
+    N = lambda t: ("num", t)
+    B = lambda op, l, r: ("bin", op, l, r)
+    pool = [N("0"), N("0.0"), N("0e3"), B("-", N("1"), N("1")), B("*", N("0"), N("9")), ("pct", "0"), N("1"), B("-", N("0"), N("1")), N("2"),
+            N("3"), N("10"), N("0.5"), B("/", N("1"), N("3")), ("pct", "100"), ("pct", "50"), N("1e3"), N("1e-3"), N("7.25"),
+            B("-", N("2"), N("5")), N("-2"), N("+3")]
+    exps = [N(str(k)) for k in range(-4, 5)] + [B("-", N("1"), N("3")), B("-", N("2"), N("2")), B("+", N("1"), N("1"))]
+    fam = []
+    for a in pool:
+        for b in pool:
+            for op in "+-*/":
+                fam.append(B(op, a, b))
+        for k in exps:
+            fam.append(B("^", a, k))
+    for e in list(fam[:: (7 if tier == "quick" else 1)]):
+        fam.append(B("+", N("1"), e))
+        fam.append(B("*", e, N("2")))
+    for e in fam:
+        try:
+            want = gens.evaluate(e)
+        except gens.DivZero:
+            want = None
+            stats["div_zero"] += 1
+        items.append((gens.render(e, rng), (lambda want: (lambda reply: check_value(reply, want)))(want)))
+    stats["boundary_family"] = len(fam)
     corpus = vlib.load_corpus("C01")
     items = [(q, None) for q in corpus] + items
     small = [(q, o) for q, o in items if len(q) <= 160]
     big = [(q, o) for q, o in items if len(q) > 160]
-    replies, failures, mismatches, ncoq = pipeline.run_queries(small, "C01", rng, tier, model_ok, budget_quick=1200)
+    replies, failures, mismatches, ncoq = pipeline.run_queries(small, "C01", rng, tier, model_ok, budget_quick=2000)
     if big:
         r2, f2, _, _ = pipeline.run_queries(big, "C01big", rng, tier, False)
         failures += f2
